@@ -570,6 +570,9 @@ func (x *Exec) applyContract(st *State, fr *Frame, callee *ssa.Function, con *Co
 	for _, m := range con.Modifies {
 		x.havocTarget(st, fr, env, m, pos, true)
 	}
+	// Objects the callee allocates live at roots above the caller's current top. The heap constants
+	// are prophetic there: no assumption in the caller's state constrains cells of unallocated roots
+	// (all heap axioms are guarded by r <= top), so the callee's postcondition is what reveals them.
 	var rets []Val
 	for i := 0; i < res.Len(); i++ {
 		rets = append(rets, x.freshVal(st, "r_"+callee.Name(), res.At(i).Type()))
@@ -875,6 +878,28 @@ func (x *Exec) applyDynamicContract(st *State, fr *Frame, con *Contract, sig *ty
 	for _, m := range con.Modifies {
 		x.havocTarget(st, fr, env, m, pos, true)
 	}
+	if contractMayAllocate(con) {
+		// the callee may have allocated and initialised objects: every heap is unknown above the
+		// caller's allocator top at the time of the call
+		for _, k := range sortedKeys(st.heaps) {
+			if strings.HasPrefix(k, "G_") || k == "FBLEN" || k == "DISKLEN" {
+				continue
+			}
+			old := st.heaps[k]
+			nh := x.freshName(k)
+			st.declare(nh, st.hsort[k])
+			st.heaps[k] = nh
+			if strings.HasPrefix(k, "HS_") || k == "FB" || k == "DISK" {
+				st.assume(fmt.Sprintf("(forall ((r Int) (k Int)) (! (=> (<= r %s) (= (select (select %s r) k) (select (select %s r) k))) :pattern ((select (select %s r) k))))", snap.top, nh, old, nh))
+			} else {
+				st.assume(fmt.Sprintf("(forall ((r Int)) (! (=> (<= r %s) (= (select %s r) (select %s r))) :pattern ((select %s r))))", snap.top, nh, old, nh))
+			}
+			// every cell of a well-typed heap satisfies its type invariant (relative to the current allocator top)
+			if ax := theSorts.heapTypeAxiom(k, nh, st.top); ax != "" {
+				st.assume(ax)
+			}
+		}
+	}
 	var rets []Val
 	for i := 0; i < sig.Results().Len(); i++ {
 		rets = append(rets, x.freshVal(st, "dyn", sig.Results().At(i).Type()))
@@ -896,4 +921,14 @@ func (x *Exec) applyDynamicContract(st *State, fr *Frame, con *Contract, sig *ty
 		return rets[0]
 	}
 	return Val{K: KTuple, Tup: rets}
+}
+
+// contractMayAllocate: the contract promises freshly allocated results (so the callee allocates).
+func contractMayAllocate(con *Contract) bool {
+	for _, en := range con.Ensures {
+		if strings.Contains(en.Text, "fresh(") {
+			return true
+		}
+	}
+	return false
 }
